@@ -12,13 +12,13 @@ pub static DEF: CheckDef = CheckDef {
     id: "C17",
     run,
     replay,
-    rule: "the complete transition relation: every one of the 256 button states x 4 selections is reached through the public API (on the Joypad device and, separately, through the bus: writes to 0xFF00, press/release, catch-up, IF bit 4) with the request latch cleared, then each of the 20 single actions (press / release of each of the 8 buttons, each of the 4 select writes) is applied; P1 bits 0-5 before and after, whether the action requests the joypad interrupt, and that the request is reported exactly once are compared with the matrix model (models::joypad). 256 x 4 x 20 = 20480 transitions per level, all enumerated. Plus proptest histories through the bus (arbitrary P1 bytes, several actions between catch-ups). Non-trivial = transition in which at least one input line changes; distinct by construction (state, action).",
+    rule: "the complete transition relation: every one of the 256 button states x 4 selections is reached through the public API (on the Joypad device and, separately, through the bus: writes to 0xFF00, press/release, catch-up, IF bit 4) with the request latch cleared, then each of the 20 single actions (press / release of each of the 8 buttons, each of the 4 select writes) is applied; P1 bits 0-5 before and after, whether the action requests the joypad interrupt, and that the request is reported exactly once are compared with the matrix model (models::joypad). 256 x 4 x 20 = 20480 transitions per level, all enumerated. Plus proptest histories through the bus (arbitrary P1 bytes, several actions between catch-ups). Non-trivial = transition in which at least one input line changes; distinct by construction (state, action). Program layer (the glue between the CPU loop and the device): generated structured programs (C04's generator with the device fragments weighted up: P1 select writes and reads, software IF writes, IE changes; up to 13 generated button presses/releases injected between steps) run on a whole core in three stepping modes (interpreter instruction-stepped, interpreter block-stepped, jit block-stepped); the reference machine says which bus writes each step made, how many clocks it is worth and which request was acknowledged, and the independent model fed with exactly that must agree with P1 bits 0-5 and IF bit 4 (set by every falling input line, cleared only by a software IF write or by its own acknowledge - in particular it survives the dispatch of another source; the order of a select-line edge and an IF write inside one step is left open) after every step.",
     assumptions: &[
         "models::joypad (line low iff a pressed button belongs to a selected group; request iff some line goes high -> low)",
         "P1 bits 6-7 are not compared",
         "several falling edges between two catch-ups are one request (IF is a flag, not a counter)",
     ],
-    required_classes: &["device-transition", "bus-transition", "falling-by-press", "falling-by-select", "rise-and-fall-same-write", "no-edge", "generated-history"],
+    required_classes: &["device-transition", "bus-transition", "falling-by-press", "falling-by-select", "rise-and-fall-same-write", "no-edge", "generated-history", "program-button-edge", "program-select-edge", "program-joypad-request-survived-other-dispatch", "program-mode-block-jit"],
     exhaustive: true,
 };
 
@@ -283,9 +283,14 @@ fn run(rec: &mut Rec) {
             Err(msg) => Err(Fail::new("panic", msg)),
         }
     });
+    // program layer: the joypad as a whole core drives it, with button events injected between steps
+    crate::sysobs::program_layer(rec, "program-joypad", &[crate::sysobs::Dev::Joypad], crate::prog::Focus { joy: 3, irq: 2, lcd: 1, ..Default::default() }, rec.ctx.tier.pick(250u32, 6000), rec.ctx.tier.pick(2500u32, 10000), 14, program_nontrivial);
 }
 
 fn replay(case: &Value, rec: &mut Rec) {
+    if crate::sysobs::replay_program(case, rec, &[crate::sysobs::Dev::Joypad]) {
+        return;
+    }
     let rom = std_rom();
     let mut p = BusPad { m: i::M::new(&rom), model: RefPad::new(0x30), pending: false };
     rec.eval(1);
@@ -306,4 +311,8 @@ fn replay(case: &Value, rec: &mut Rec) {
             rec.violation(&sig, case.clone(), d);
         }
     }
+}
+
+fn program_nontrivial(o: &crate::sysobs::RunOutcome) -> bool {
+    o.stats.joy_edges_press + o.stats.joy_edges_select > 0 && o.stats.dispatches > 0
 }
